@@ -167,20 +167,29 @@ def _helpers():
     return out
 
 
-async def _one(case, token, obs):
-    """One request on fresh streams, started now; event / completion ticks relative to the start."""
+async def _one(case, token, obs, streams=None):
+    """One request, started now; event / completion ticks relative to the start.  `streams` =
+    (in_send, in_recv, out_send, out_recv) of a connection shared with earlier requests (then the
+    write stream is unbounded and always open), else fresh streams."""
     import anyio
     from chuk_mcp.protocol.messages.send_message import send_message, CancelledError
     from chuk_mcp.protocol.types.errors import RetryableError, NonRetryableError
 
     loop = __import__("asyncio").get_running_loop()
     t0 = loop.ticks
-    in_send, in_recv = anyio.create_memory_object_stream(math.inf)
+    if streams is None:
+        in_send, in_recv = anyio.create_memory_object_stream(math.inf)
+    else:
+        in_send, in_recv = streams[0], streams[1]
     # "writer": what the write stream does AFTER the first write: "open" takes everything;
     # "blocked" = the peer stopped reading and the (one-slot) buffer is kept full; "closed" = the
     # peer's end is closed right after the first write
     wmode = case.get("writer", "open")
-    out_send, out_recv = anyio.create_memory_object_stream(1 if wmode == "blocked" else math.inf)
+    if streams is None:
+        out_send, out_recv = anyio.create_memory_object_stream(1 if wmode == "blocked" else math.inf)
+    else:
+        out_send, out_recv = streams[2], streams[3]
+        wmode = "open"
     filler_send = out_send.clone()
     writes = []
     # a caller-supplied id is known up front; a falsy one ("" / 0) makes send_message generate
@@ -244,6 +253,9 @@ async def _one(case, token, obs):
 
     for a, ev in case["ev"]:
         loop.at(t0 + a, fire(ev))
+    if case.get("eos") is not None:
+        # the connection's read side ends (transport shut down, peer gone) at that tick
+        loop.at(t0 + case["eos"], in_send.close)
 
     D_s = case["D"] * vloop.TICK
     helper = case.get("helper")
@@ -316,19 +328,53 @@ async def _one(case, token, obs):
     return obs
 
 
+def make_token(kind):
+    """-> (token handed to send_message, function that cancels it).  "plain": the library's own
+    class.  "linked": a subclass whose flag is its parent's (cancelling the parent runs the PARENT's
+    callbacks only -- a group of requests under one parent).  "duck": an unrelated object with the
+    same public surface (is_cancelled / add_callback / cancel) that keeps no callbacks."""
+    from chuk_mcp.protocol.messages.send_message import CancellationToken
+    if kind == "linked":
+        parent = CancellationToken()
+
+        class Linked(CancellationToken):
+            @property
+            def is_cancelled(self):
+                return parent.is_cancelled or super().is_cancelled
+        return Linked(), parent.cancel
+    if kind == "duck":
+        class Duck:
+            def __init__(self):
+                self._flag = False
+
+            @property
+            def is_cancelled(self):
+                return self._flag
+
+            def add_callback(self, cb):
+                if self._flag:
+                    cb()
+
+            def cancel(self):
+                self._flag = True
+        d = Duck()
+        return d, d.cancel
+    t = CancellationToken()
+    return t, t.cancel
+
+
 def run_case(case):
     """Execute one scripted history on the real code.  Returns the observation dict."""
-    from chuk_mcp.protocol.messages.send_message import CancellationToken
-
     obs = {}
 
     async def main():
         loop = __import__("asyncio").get_running_loop()
-        token = CancellationToken() if (case.get("hasToken") or case.get("pre") or case.get("cancelAt") is not None) else None
+        token, cancel = (make_token(case.get("tokenKind", "plain"))
+                         if (case.get("hasToken") or case.get("pre") or case.get("cancelAt") is not None) else (None, None))
         if token is not None and case.get("pre"):
-            token.cancel()
+            cancel()
         if case.get("cancelAt") is not None:
-            loop.at(case["cancelAt"], token.cancel)
+            loop.at(case["cancelAt"], cancel)
         await _one(case, token, obs)
 
     vloop.run(main, tie=case.get("tie", "events"))
@@ -347,21 +393,27 @@ def run_seq(case):
 
     async def main():
         loop = __import__("asyncio").get_running_loop()
-        token = None if case.get("noToken") else CancellationToken()
+        token, cancel = (None, None) if case.get("noToken") else make_token(case.get("tokenKind", "plain"))
         fire = case.get("fire")
         if fire is not None:
             if fire == 0:
-                token.cancel()
+                cancel()
             else:
-                loop.at(fire, token.cancel)
+                loop.at(fire, cancel)
         if case.get("mode") == "par":
             async with anyio.create_task_group() as tg:
                 for sub, o in zip(case["reqs"], out):
                     tg.start_soon(_one, sub, token, o)
         else:
             gaps = case.get("gaps") or []
+            shared = None
+            if case.get("sharedStreams"):
+                # ONE connection for the whole sequence (a retry, the next call of a session)
+                a, b = anyio.create_memory_object_stream(math.inf)
+                c, d = anyio.create_memory_object_stream(math.inf)
+                shared = (a, b, c, d)
             for i, (sub, o) in enumerate(zip(case["reqs"], out)):
-                await _one(sub, token, o)
+                await _one(sub, token, o, shared)
                 g = gaps[i] if i < len(gaps) else 0
                 if g:
                     await anyio.sleep(g * vloop.TICK)
